@@ -797,14 +797,14 @@ def gen(tier, rng, shard, nshards):
             if builder_expressible(nodes):
                 yield both_case(nodes)
     # (d) random profiles
-    nrand = (9000 if thorough else 800) // nshards
+    nrand = (9000 if thorough else 600) // nshards
     for _ in range(nrand):
         g = AGen(rng, raw_ok=True, star_max=rng.choice([1, 2, 3]), nasty=rng.choice([0.0, 0.3, 0.6]))
         nodes = g.cover(rng.choice(lex_forms), depth=rng.choice([0, 1, 1, 2]))
         if len(toks_of(nodes)) > 160:
             continue
         yield src_case(nodes, tight=rng.choice([0.0, 0.3, 0.9]))
-    nboth = (7000 if thorough else 600) // nshards
+    nboth = (7000 if thorough else 450) // nshards
     for _ in range(nboth):
         g = AGen(rng, raw_ok=False, star_max=rng.choice([1, 2, 3]), one_dt=True)
         nodes = g.cover(rng.choice(lex_forms), depth=rng.choice([0, 1, 1, 2]))
@@ -813,7 +813,7 @@ def gen(tier, rng, shard, nshards):
         yield both_case(nodes)
 
     # ---- arbitrary builder call sequences
-    nbuild = (5000 if thorough else 400) // nshards
+    nbuild = (5000 if thorough else 320) // nshards
     for _ in range(nbuild):
         yield "build", "build " + " ".join(odd_calls(rng))
     if shard == 0:
@@ -821,14 +821,14 @@ def gen(tier, rng, shard, nshards):
             yield "build", "build " + " ".join(words)
 
     # ---- histories
-    nhist = (2500 if thorough else 200) // nshards
+    nhist = (2500 if thorough else 160) // nshards
     for _ in range(nhist):
         line = gen_hist(rng)
         if line:
             yield "hist", line
 
     # ---- trees
-    ntree = (4000 if thorough else 320) // nshards
+    ntree = (4000 if thorough else 260) // nshards
     for j in range(ntree):
         g = AGen(rng, raw_ok=True, star_max=2)
         nodes = g.cover(rng.choice(lex_forms), depth=rng.choice([0, 1]))
